@@ -11,14 +11,10 @@ import PilotaModel.Lemmas.IdlFile
 
   STAGE REACHED: the whole grammar — includes, cpp_includes, namespaces, typedefs, consts (bool, names,
   literals, ints, doubles, nested list / map literals), enums, structs / unions / exceptions (ids,
-  requiredness, defaults, annotations), services (extends, oneway, arguments, throws).
-  `file_rt_partial` is partial ONLY by finding DI1: the full statement
-
-    theorem file_rt (f : File) (hf : f.wf = true) (l : Layout) : File.parse (render l f) = .ok f []
-
-  is false for the empty declaration list rendered with a non-empty blank
-  (`empty_document_blank_counterexample`); it holds as soon as the document has a declaration or the
-  rendering is the empty text.
+  requiredness, defaults, annotations), services (extends, oneway, arguments, throws) — and the full
+  statement `file_rt`, with no hypothesis besides `File.wf` (finding DI1, which had forced a
+  non-empty-document hypothesis, is fixed in /repo by 00dcdf5 and the model follows the fixed code:
+  `blank_only_document_parses`).
 -/
 namespace Pilota.Props.C15
 open Pilota.Idl
@@ -37,12 +33,12 @@ theorem literal_rt (preferDouble : Bool) (t r : List Char) (h : literalOk t = tr
     Literal.parse (quoteFor preferDouble t :: (t ++ quoteFor preferDouble t :: r)) = .ok t r :=
   Pilota.Idl.literal_rt preferDouble h
 
-theorem int_rt (d : Nat) (n : Int) (r : List Char) (hn : intOk n = true) (hr : Sep r) :
-    IntConstant.parse (d + 2) (intText n ++ r) = .ok n r := intConstant_rt d hn hr
+theorem int_rt (n : Int) (r : List Char) (hn : intOk n = true) (hr : Sep r) :
+    IntConstant.parse (intText n ++ r) = .ok n r := intConstant_rt hn hr
 
 /-- a double keeps its source text: every text `DoubleConstant::parse` recognises is read back -/
-theorem double_rt (t r : List Char) (h : doubleOk t = true) (hr : Sep r) (d : Nat) (hd : t.length < d) :
-    DoubleConstant.parse d (t ++ r) = .ok t r := Pilota.Idl.double_rt h hr hd
+theorem double_rt (t r : List Char) (h : doubleOk t = true) (hr : Sep r) :
+    DoubleConstant.parse (t ++ r) = .ok t r := Pilota.Idl.double_rt h hr
 
 theorem path_rt (p : Path) (hp : p.wf = true) (l : Layout) (r : List Char)
     (hr : hdP (fun c => !isIdentChar c) r = true) (hstop : PathStop r) :
@@ -79,9 +75,9 @@ theorem structlike_rt (s : StructLike) (hw : s.wf = true) (d : Nat) (hd : s.dept
     ∃ g, BT g ∧ StructLike.parse d ((rStructLike s last l).1 ++ R) = .ok s (g ++ R) :=
   structLike_rt hw (by simp only [StructLike.supported, List.all_eq_true]; intro f _; exact field_supported f) hd last l hR
 
-theorem enum_rt (e : Enum) (hw : e.wf = true) (d : Nat) (hd : 1 < d) (l : Layout) (b R : List Char) (hb : BT b)
-    (hR : ItemStart R) : ∃ g, BT g ∧ Enum.parse d ((rEnum e l).1 ++ (b ++ R)) = .ok e (g ++ R) :=
-  Pilota.Idl.enum_rt hw hd l hb hR
+theorem enum_rt (e : Enum) (hw : e.wf = true) (l : Layout) (b R : List Char) (hb : BT b)
+    (hR : ItemStart R) : ∃ g, BT g ∧ Enum.parse ((rEnum e l).1 ++ (b ++ R)) = .ok e (g ++ R) :=
+  Pilota.Idl.enum_rt hw l hb hR
 
 /-- a function: `oneway`, result type, name, arguments (an argument printed without `required` is
 read back as `required`), `throws`, annotations, separator; `g` is the part of the following blank
@@ -133,26 +129,15 @@ theorem keyword_prefix_const (i : Ident) (hi : identOk i = true) (h1 : i ≠ cs!
   have := Pilota.Idl.const_rt _ hw rfl (d + 1) (by simp [ConstValue.depth]) l r hf
   simpa [rConst, rPath, rSlots] using this
 
-/-- Parsing the rendering of a well-formed document returns exactly its declarations in order and its
-recomputed package, and leaves nothing unparsed — for EVERY layout.  (Partial only by DI1: the
-hypothesis `h` excludes the empty declaration list rendered as a non-empty blank.) -/
-theorem file_rt_partial (f : File) (hf : f.wf = true) (l : Layout) (h : f.items ≠ [] ∨ render l f = []) :
-    File.parse (render l f) = .ok f [] := by
-  by_cases hne : f.items = []
-  · have hr : render l f = [] := by rcases h with h | h; exact absurd hne h; exact h
-    rw [hr]
-    obtain ⟨pkg, items⟩ := f
-    simp only at hne; subst hne
-    simp only [File.wf, List.all_nil, packageOf, Bool.true_and] at hf
-    cases pkg with
-    | none => rfl
-    | some p => simp at hf
-  · exact file_parse_of_fileD (fun _ hd => fileD_rt hf (fun it _ => item_supported it) hne hd l)
+/-- `file_rt`: parsing the rendering of a well-formed document returns exactly its declarations in
+order and its recomputed package, and leaves nothing unparsed — for EVERY layout. -/
+theorem file_rt (f : File) (hf : f.wf = true) (l : Layout) : File.parse (render l f) = .ok f [] :=
+  file_parse_of_fileD (fun _ hd => fileD_rt hf (fun it _ => item_supported it) hd l)
 
-/-- Finding DI1: the empty document rendered with one space is rejected. -/
-theorem empty_document_blank_counterexample :
-    (File.parse (render [LChoice.mk [Piece.ws [' ']] 0 false] (File.mk none []))).isErr = true := by
-  decide
+/-- (was finding DI1, fixed by 00dcdf5) a document that consists of blanks and comments only — the
+empty declaration list under any layout — parses to the empty document. -/
+theorem blank_only_document_parses (l : Layout) : File.parse (render l (File.mk none [])) = .ok (File.mk none []) [] :=
+  file_rt _ rfl l
 
 /-! non-vacuity -/
 example : File.wf (File.mk (some (Path.mk [cs!"a", cs!"b"])) [
@@ -182,5 +167,6 @@ example : ConstFollow (.int 5) cs!" , 6]" ∧ ConstFollow (.path ⟨[cs!"a"]⟩)
 example : ∀ d, FnFollow d cs!"}" := fun d => fnFollow_close d []
 example : PathStop cs!" = 1" := pathStop_of (b := cs!" ") (BT.ws ' ' [] (by decide) BT.nil) (by decide) (by decide)
 example : Annotations.wf [⟨cs!"go.tag", cs!"json:\\\"id\\\""⟩] = true := by decide
+example : (File.parse cs!" // only a comment\n/* and a block */ # hash").isOk = true := by decide
 
 end Pilota.Props.C15
